@@ -445,6 +445,14 @@ def reject_before_record(cx: Ctx, rule: str):
         if is_new and p.outcome[0] != "raise":
             seen += 1
             ok = len(news) == 1 and not dnews and len(sts) == 1 and news[0].seq < sts[0].seq
+            if len(news) == 1:
+                names = refresh.params()[1:]
+                A_, E_ = P(refresh, names[names.index("address")] if "address" in names else names[1]), \
+                    P(refresh, names[names.index("entry")] if "entry" in names else names[2])
+                oka = tuple(news[0].args) == (E_, A_) and not news[0].kwargs
+                run.ob(rule, f"{refresh.qual}:new-entry-announced-with-entry-and-address", oka, loc(refresh, news[0].node),
+                       "the 'new' callback receives (entry, address) of the record being added" if oka else
+                       f"the 'new' callback is called with ({', '.join(show(a)[:30] for a in news[0].args)}); listeners key their history by (entry, address)")
             run.ob(rule, f"{refresh.qual}:new-entry-announced-before-recorded", ok, loc(refresh),
                    "a new entry is offered to the listener synchronously *before* it is recorded (a rejection leaves no record)" if ok else
                    f"new entry: {len(news)} synchronous / {len(dnews)} deferred 'new' callback(s), {len(sts)} store write(s), order {'ok' if news and sts and news[0].seq < sts[0].seq else 'wrong'}")
